@@ -6,6 +6,7 @@ import (
 	"io"
 	"math"
 	"net"
+	"sync"
 	"sync/atomic"
 	"time"
 )
@@ -59,6 +60,13 @@ func NetConn(ctx context.Context, c *Conn, msgType MessageType) net.Conn {
 	nc.readCtx, nc.readCancel = context.WithCancel(ctx)
 
 	nc.writeTimer = time.AfterFunc(math.MaxInt64, func() {
+		nc.writeDeadlineMu.Lock()
+		defer nc.writeDeadlineMu.Unlock()
+		if !deadlineDue(nc.writeDeadline) {
+			// The deadline was reset after the timer had fired.
+			return
+		}
+
 		if !nc.writeMu.tryLock() {
 			// If the lock cannot be acquired, then there is an
 			// active write goroutine and so we should cancel the context.
@@ -75,6 +83,13 @@ func NetConn(ctx context.Context, c *Conn, msgType MessageType) net.Conn {
 	}
 
 	nc.readTimer = time.AfterFunc(math.MaxInt64, func() {
+		nc.readDeadlineMu.Lock()
+		defer nc.readDeadlineMu.Unlock()
+		if !deadlineDue(nc.readDeadline) {
+			// The deadline was reset after the timer had fired.
+			return
+		}
+
 		if !nc.readMu.tryLock() {
 			// If the lock cannot be acquired, then there is an
 			// active read goroutine and so we should cancel the context.
@@ -93,6 +108,13 @@ func NetConn(ctx context.Context, c *Conn, msgType MessageType) net.Conn {
 	return nc
 }
 
+// deadlineDue reports whether the deadline t is set and has passed. A timer
+// callback that finds its deadline not due has been overtaken by a later
+// SetDeadline call and must not act on the old one.
+func deadlineDue(t time.Time) bool {
+	return !t.IsZero() && !time.Now().Before(t)
+}
+
 type netConn struct {
 	// These must be first to be aligned on 32 bit platforms.
 	// https://github.com/nhooyr/websocket/pull/438
@@ -102,10 +124,18 @@ type netConn struct {
 	c       *Conn
 	msgType MessageType
 
+	// writeDeadlineMu orders the timer callback and SetWriteDeadline.
+	writeDeadlineMu sync.Mutex
+	writeDeadline   time.Time
+
 	writeTimer  *time.Timer
 	writeMu     *mu
 	writeCtx    context.Context
 	writeCancel context.CancelFunc
+
+	// readDeadlineMu orders the timer callback and SetReadDeadline.
+	readDeadlineMu sync.Mutex
+	readDeadline   time.Time
 
 	readTimer  *time.Timer
 	readMu     *mu
@@ -209,6 +239,10 @@ func (nc *netConn) SetDeadline(t time.Time) error {
 }
 
 func (nc *netConn) SetWriteDeadline(t time.Time) error {
+	nc.writeDeadlineMu.Lock()
+	defer nc.writeDeadlineMu.Unlock()
+	nc.writeDeadline = t
+
 	atomic.StoreInt64(&nc.writeExpired, 0)
 	if t.IsZero() {
 		nc.writeTimer.Stop()
@@ -223,6 +257,10 @@ func (nc *netConn) SetWriteDeadline(t time.Time) error {
 }
 
 func (nc *netConn) SetReadDeadline(t time.Time) error {
+	nc.readDeadlineMu.Lock()
+	defer nc.readDeadlineMu.Unlock()
+	nc.readDeadline = t
+
 	atomic.StoreInt64(&nc.readExpired, 0)
 	if t.IsZero() {
 		nc.readTimer.Stop()
